@@ -134,6 +134,8 @@ class Models:
         c = canon(x)
         if k == "scalar":
             return {"output": self.num(h("m", c) % 1000)}
+        if k == "coarse":     # few distinct output values: predictions coincide with each other and with their own mean now and then
+            return {"output": self.num(h("m", c) % 3)}
         if k == "ignore":     # reads only the first feature
             return {"output": self.num(h("m", _cv(x[self.names[0]])) % 1000)}
         if k == "constant":
